@@ -38,16 +38,6 @@ def main(c):
 
 def apalache(c):
     """Unbounded in the number of bytes and signals: IndInv is inductive and implies NoHang (3 processes), with Apalache."""
-    import time
-    t0 = time.time()
-    ok = 0
-    outdir = os.path.join(c.dir, "apalache")
-    obligations = (["--init=Init", "--inv=IndInv", "--length=0"], ["--init=IndInv", "--inv=IndInv", "--length=1"], ["--init=IndInv", "--inv=NoHang", "--length=0"])
-    for args in obligations:
-        r = vlib.sh(["timeout", "600", "apalache-mc", "check", "--out-dir=" + outdir] + args + ["IpcSyncInd.tla"], cwd=SD, timeout=700)
-        if "The outcome is: NoError" in (r.stdout or ""):
-            ok += 1
-    c.cov["apalache_inductive_invariant"] = {"obligations": len(obligations), "discharged": ok, "wall_s": round(time.time() - t0, 1),
-                                             "statement": "Init => IndInv; IndInv /\\ Next => IndInv'; IndInv => NoHang (any number of bytes / signals, 3 processes)"}
-    if ok != len(obligations):
-        raise vlib.ToolFailure("Apalache did not discharge the inductive invariant of IpcSync (%d of %d)\n%s" % (ok, len(obligations), (r.stdout or "")[-1500:]))
+    vlib.apalache_inductive(c, SD, "IpcSyncInd", (["--init=Init", "--inv=IndInv", "--length=0"], ["--init=IndInv", "--inv=IndInv", "--length=1"],
+                                                  ["--init=IndInv", "--inv=NoHang", "--length=0"]),
+                            "Init => IndInv; IndInv /\\ Next => IndInv'; IndInv => NoHang (any number of bytes / signals, 3 processes)")
